@@ -428,6 +428,11 @@ def run(prop, tier, seed, rep):
         jobs.append({"tag": "retrywait-" + qk})
     # a burst of terminal input below and above the size the terminal library reads at a time (1024 bytes), ending in q
     # (InputQueue.tla predicts the threshold: delayed exactly when the burst exceeds the 1024 bytes read per notification)
+    # terminals at and beyond 65 535 cells (what the drawing library's buffer can address)
+    for rows, cols in ((255, 257), (200, 400)):
+        tag = f"huge-{rows}x{cols}"
+        results.append(session(bindir, [("frame",), ("resize", rows, cols), ("key", "F3"), ("key", "F1"), ("frame",)], tag))
+        jobs.append({"tag": tag})
     for nkeys in (300, 341, 342, 500):
         results.append(flood_session(bindir, f"flood-{3 * nkeys + 1}", nkeys))
         jobs.append({"tag": f"flood-{3 * nkeys + 1}"})
